@@ -1,9 +1,9 @@
 (* Props_C06.v -- property C06 (thread pool).  ONLY statements closed by `exact`.
    Proved for EVERY schedule (list of thread choices, spurious wake-ups included), every pool flavour,
-   every number of submitters / workers / tasks.  NOT proved here (decided per run by the deterministic
-   scheduler harness and its monitors only): that free eventually returns (deadlock freedom / liveness under a fair
-   schedule), wait-current -- see DESIGN.md. *)
-From LM Require Import Base Thpool ThpoolProofs ThpoolQuiesce ThpoolWait.
+   every number of submitters / workers / tasks.  NOT proved here: termination under a FAIR schedule (the no-deadlock theorem
+   below says some thread can always move; that free eventually returns additionally needs fairness and a measure), the
+   wait-current flavour (which tasks may be discarded) -- see DESIGN.md. *)
+From LM Require Import Base Thpool ThpoolProofs ThpoolQuiesce ThpoolWait ThpoolLive.
 
 (* tasks are conserved by every transition: a task is always in exactly one place *)
 Theorem C06_tasks_conserved : forall p ch x, cnt x (everywhere (step p ch)) = cnt x (everywhere p).
@@ -60,6 +60,21 @@ Print Assumptions C06_wait_all_complete.
 Theorem C06_second_invariant_inductive : forall p ch, QInv p -> WInv p -> WInv (step p ch).
 Proof. exact step_winv. Qed.
 Print Assumptions C06_second_invariant_inductive.
+
+(* NO DEADLOCK: in every reachable state in which some thread has not finished, some thread can take a step that changes the
+   state -- the owner of the lock, a thread asking for the free lock, a running task, or the freeing thread whose wait condition
+   holds (no lost wake-up: sleepers are in the condition's list, nobody sleeps after the shutdown broadcast, the last worker
+   wakes a freeing thread that waits for alive == 0) *)
+Theorem C06_no_deadlock : forall lazy det mx md subs sched, 1 <= mx ->
+  let p := run_sched (init lazy det mx md subs) sched in
+  (exists t th, nth_error (p_threads p) t = Some th /\ thread_finished th = false) ->
+  exists t, step p (t, false) <> p.
+Proof. exact no_deadlock. Qed.
+Print Assumptions C06_no_deadlock.
+
+Theorem C06_third_invariant_inductive : forall p ch, QInv p -> WInv p -> LInv p -> LInv (step p ch).
+Proof. exact step_linv. Qed.
+Print Assumptions C06_third_invariant_inductive.
 
 (* the invariant is inductive for ANY pool state satisfying it, not only for runs from init *)
 Theorem C06_invariant_inductive : forall p ch, QInv p -> QInv (step p ch).
